@@ -10,6 +10,7 @@
     whose clocks have not passed [T] — "no deadline falls due while the log is being replicated".
     Without that guard the statement is false in the code as it is: see the [_refuted] theorems. *)
 From stdpp Require Import gmap strings.
+From EV Require Import Model.RaftRun.
 From EV Require Import Base.Str Model.Value Model.Keyspace Model.Reply Model.Prog Model.CmdSet Model.AbsForm Model.Raft.
 From EV Require Import Proofs.RaftLemmas Proofs.RaftDet Proofs.RaftClasses Proofs.RaftProofs Proofs.ProgLemmas.
 From EV Require Import Model.TableTypes Gen.CmdTable Proofs.TableObligations Proofs.HandlerClasses.
@@ -275,3 +276,22 @@ Example C07_follower_example :
   /\ handle_command table_sync default_pick (Node (init_state 0) true false) 3 ["SET"; "k"; "v"] = HcPropose (ReqCommand 3 ["SET"; "k"; "v"])
   /\ (exists s r, handle_command table_sync default_pick f 3 ["GET"; "k"] = HcLocal s r).
 Proof. vm_compute. repeat split; try reflexivity. eexists _, _. reflexivity. Qed.
+
+(** Forwarding through gossip is not exactly-once (recorded finding KF-C07-forwarding-not-exactly-once; the model
+    reproduces the code: [Model/RaftRun.v] [enqueue] / [deliver]).  Three nodes, ForwardCommand on, one RPUSH l x handed
+    to follower 1 and acknowledged: after the first gossip round the list holds one x on every node, after the second
+    two, after the third three — the two followers queue the message again each time they receive it. *)
+Theorem C07_forwarded_write_reapplied_refuted :
+  let out := run_raft ["S w nodes=3 leader=0 forward=1"; "H 1 0 5250555348 6c 78"; "M"; "G"; "M"; "G"; "M"; "G"; "E"]%string in
+  nth 3 out ""%string = "G0 mem=58 db0{6c=l[78]@0}v[]"%string /\
+  nth 7 out ""%string = "G0 mem=75 db0{6c=l[78,78]@0}v[]"%string /\
+  nth 11 out ""%string = "G0 mem=92 db0{6c=l[78,78,78]@0}v[]"%string.
+Proof. vm_compute. done. Qed.
+(** Two nodes: two acknowledged writes with the same bytes for the same database within one gossip round reach the
+    leader as one. *)
+Theorem C07_forwarded_twin_collapses_refuted :
+  let out := run_raft ["S w nodes=2 leader=0 forward=1"; "H 1 0 5250555348 6c 78"; "H 1 0 5250555348 6c 78"; "M"; "G"; "E"]%string in
+  out = ["S w"; "H +4f4b"; "H +4f4b"; "M 1"; "G0 mem=58 db0{6c=l[78]@0}v[]"; "G1 mem=58 db0{6c=l[78]@0}v[]"; "E"]%string.
+Proof. vm_compute. done. Qed.
+Print Assumptions C07_forwarded_write_reapplied_refuted.
+Print Assumptions C07_forwarded_twin_collapses_refuted.
